@@ -245,3 +245,95 @@ Section FiltAggAddr.
       + contradiction.
   Qed.
 End FiltAggAddr.
+
+(* ---------- the calls ---------- *)
+From JP Require Import SpecCalls SpecCallsCompose StackRules.
+Section FiltAggCalls.
+  Variable cfg : config.
+  Variable parse_float : string -> option num.
+  Variable regex_ok : string -> bool.
+  Variable ffun : string -> value -> option value.
+  Variable afun : string -> list value -> option value.
+  Variable regex_match : string -> string -> bool.
+  Hypothesis ffun_small : forall f v w, small v -> ffun f v = Some w -> small w.
+  Hypothesis afun_small : forall f l w, Forall small l -> afun f l = Some w -> small w.
+  Notation parse := (parse_with cfg parse_float regex_ok jsonpath_grammar).
+  Notation eval_run := (eval_run ffun afun regex_match).
+  Notation sp := (sp ffun afun regex_match).
+  Notation sc := (sc ffun afun regex_match).
+  Notation nav_allf := (nav_allf parse_float regex_match).
+  Notation fpres_f := (FiltChain.fpres cfg parse_float).
+  Notation fpres_u := (FunParse.fpres cfg).
+  Notation fpre_of := (fpre_of cfg parse_float).
+
+  (* kinds that call nothing: no function node, filters without user functions *)
+  Definition cfc (k : kind) : Prop := match k with KMulti _ _ _ | KAgg _ _ | KFFun _ => False | KFilter q => call_free_q q = true | _ => True end.
+  Lemma finp_cfc p l : Forall (fun kb : kind * basic => cfc (fst kb)) l -> (match finp p l with OSome m => call_free m | ONone => true end) = true.
+  Proof.
+    induction l as [|y l IH]; intros H; [reflexivity|]. inversion H as [|? ? Hy Hl]; subst. cbn [finp call_free].
+    rewrite (IH Hl). destruct (fst y); try contradiction; try reflexivity. cbn [cfc] in Hy. rewrite Hy. reflexivity.
+  Qed.
+  Lemma cl_cfc l : Forall (fun kb : kind * basic => cfc (fst kb)) l -> Forall (fun kb : kind * basic => cfc (fst kb)) (cl l).
+  Proof. intros H. induction H as [|y l Hy Hl IH]; constructor; [exact Hy|exact IH]. Qed.
+  Lemma fpre_cfc x : fstep_ok x = true -> Forall (fun kb : kind * basic => cfc (fst kb)) (fpre_of x).
+  Proof.
+    induction x as [y|i|i o lit|i|d|y IH|i g0 a o b g1 lit|neg g0 gn i g1|g0' d'|t']; intros Hs.
+    2-5,7-10: (match goal with |- Forall _ (FiltChain.fpre_of _ _ ?x) =>
+                 destruct (fpre_fkind cfg parse_float x eq_refl) as (b0 & E); rewrite E; constructor; [|constructor];
+                 destruct (fkind_filter cfg parse_float x eq_refl) as (q & Ek & Hq); cbn [fst]; rewrite Ek; exact Hq end).
+    - cbn [FiltChain.fpre_of]. destruct y as [s|s]; cbn [rstep_pre]; repeat constructor; destruct s as [q k|k|ds|[|]|sa sb sc0|u us]; exact I.
+    - cbn [fstep_ok] in Hs. apply andb_true_iff in Hs. destruct Hs as [_ Hs]. cbn [FiltChain.fpre_of]. constructor; [exact I|apply IH; exact Hs].
+  Qed.
+  Lemma fpres_cfc l : forallb fstep_ok l = true -> Forall (fun kb : kind * basic => cfc (fst kb)) (fpres_f l).
+  Proof.
+    induction l as [|y l IH]; intros Hs; [constructor|]. cbn [forallb] in Hs. apply andb_true_iff in Hs. destruct Hs as [H1 H2].
+    unfold FiltChain.fpres. cbn [flat_map]. apply Forall_app. split; [apply fpre_cfc; exact H1|apply IH; exact H2].
+  Qed.
+  Lemma fparam_cf p x r : forallb fstep_ok (x :: r) = true -> call_free (param_of p (fpres_f (x :: r))) = true.
+  Proof.
+    intros Hs. pose proof (fpres_cfc (x :: r) Hs) as H. unfold param_of. destruct (fpres_f (x :: r)) as [|y l]; [reflexivity|].
+    inversion H as [|? ? Hy Hl]; subst. cbn [call_free]. rewrite (finp_cfc p (cl l) (cl_cfc l Hl)).
+    destruct (fst y); try contradiction; try reflexivity. cbn [cfc] in Hy. rewrite Hy. reflexivity.
+  Qed.
+
+  Definition fagg_calls (l : list fstep) (g : list N) (fs : list (list N)) (doc : value) : list call :=
+    match nav_allf doc l ([], doc) with
+    | [] => []
+    | _ :: _ => CallA (text_of g) (fagg_input parse_float regex_match l doc) ::
+                match afun (text_of g) (fagg_input parse_float regex_match l doc) with Some v => fun_calls ffun fs v | None => [] end
+    end.
+
+  Lemma sc_fchain_agg x r g fs doc : forallb fstep_ok (x :: r) = true -> small doc ->
+    sc (fchain_agg_node cfg parse_float (x :: r) g fs) doc (Some [], doc) = fagg_calls (x :: r) g fs doc.
+  Proof.
+    intros Hs Hd. unfold fchain_agg_node, fagg_calls. rewrite sc_unfold.
+    rewrite (proj2 (proj1 (call_free_nocalls ffun afun regex_match) _ (fparam_cf (agg_ctext cfg g fs) x r Hs))). cbn [app].
+    pose proof (fparam_args cfg parse_float ffun afun regex_match (agg_ctext cfg g fs) x r doc Hs Hd) as Hn. cbv zeta.
+    rewrite (fparam_agg_args cfg parse_float ffun afun regex_match (agg_ctext cfg g fs) x r doc Hs Hd).
+    destruct (sp (param_of (agg_ctext cfg g fs) (fpres_f (x :: r))) doc (Some [], doc)) as [|a0 l0].
+    - rewrite (proj1 Hn eq_refl). reflexivity.
+    - destruct (nav_allf doc (x :: r) ([], doc)) as [|a1 l1]; [discriminate (proj2 Hn eq_refl)|].
+      destruct (afun (text_of g) (fagg_input parse_float regex_match (x :: r) doc)) as [v|]; [|reflexivity].
+      rewrite (cfwd_tail_funs cfg ffun afun regex_match). reflexivity.
+  Qed.
+
+  Lemma fchain_agg_node_fcf x r g fs : forallb fstep_ok (x :: r) = true -> filters_call_free (fchain_agg_node cfg parse_float (x :: r) g fs) = true.
+  Proof.
+    intros Hs. unfold fchain_agg_node. cbn [filters_call_free].
+    rewrite (proj1 (proj1 (call_free_nocalls ffun afun regex_match) _ (fparam_cf (agg_ctext cfg g fs) x r Hs))).
+    rewrite (fin_fcf (fpres_u fs) (fpres_nofilter cfg fs)). reflexivity.
+  Qed.
+
+  (* the aggregate is called exactly once, with all the values the steps and filters reach, and not at all when they reach nothing;
+     the filter functions after it see its result, left to right; the filters call nothing *)
+  Theorem fchain_agg_calls x r g fs doc st : forallb fstep_ok (x :: r) = true -> forallb (fstep_okp parse_float regex_ok) (x :: r) = true ->
+    forallb fname_ok (g :: fs) = true -> agg_known cfg g = true -> forallb (fun_known cfg) fs = true -> small doc -> ok st ->
+    exists t, parse (fchain_fun_path (x :: r) (g :: fs)) = ParseOk t /\
+              calls (snd (eval_run t doc st)) = calls st ++ fagg_calls (x :: r) g fs doc.
+  Proof.
+    intros Hs Hokp Hf Hg Hk Hd Hok. exists (fchain_agg_node cfg parse_float (x :: r) g fs).
+    pose proof (parse_fchain_agg_path cfg parse_float regex_ok x r g fs Hs Hokp Hf Hg Hk) as Hp. split; [exact Hp|].
+    rewrite (eval_call_log ffun afun regex_match ffun_small afun_small _ doc st (parse_builds_wf cfg parse_float regex_ok _ _ Hp) (fchain_agg_node_fcf x r g fs Hs) Hd Hok).
+    rewrite (sc_fchain_agg x r g fs doc Hs Hd). reflexivity.
+  Qed.
+End FiltAggCalls.
